@@ -208,7 +208,10 @@ def gen(item, rng, tier):
             off = rng.randrange(0, 16)
             slots.append({'t': 'ldr', 'w': T.ldst_imm('ldr', rd, 6, off), 'rd': rd, 'addr': P.DBASE + 4 * off})
         elif t == 'b':
-            slots.append({'t': 'b', 'w': T.b(4)})          # skips the 16-bit marker that follows the block
+            # a branch as last slot, skipping the 16-bit marker that follows the block: B (T2), B.W (T4), BL, BX Rm, BLX Rm
+            form = rng.choice(['b', 'b', 'bw', 'bl', 'bx', 'blx'])
+            w = {'b': T.b(4), 'bw': 0xF000B801, 'bl': 0xF000F801, 'bx': T.bx(9), 'blx': 0x4780 | 9 << 3}[form]
+            slots.append({'t': 'b', 'w': w, 'form': form, 'name': 'branch_' + form})
     # optional prologue / epilogue: the very same MOVS halfwords that sit in the block are also executed outside it, where they
     # must set N/Z (and inside they must not) — decode-time context must not leak from one execution to the next
     movs = [s2['w'] for s2 in slots if s2['t'] == 'mov' and s2['w'] <= 0xFFFF and (s2['w'] & 0xFF)]
@@ -257,6 +260,10 @@ def gen(item, rng, tier):
     for s in slots:
         addrs.append(a)
         a += size_of(s['w'], True)
+    if slots[-1]['t'] == 'b':
+        tgt = addrs[-1] + size_of(slots[-1]['w'], True) + 2        # just behind the marker
+        st['R']['R9usr'] = tgt | 1
+        slots[-1]['target'] = tgt
     events = []
     pos = None
     if kind in ('irq', 'fiq'):
@@ -348,7 +355,7 @@ class ITObserver:
             bank = lambda n: postR[_phys(n, self.mode)], lambda n: preR[_phys(n, self.mode)]
             post_r, pre_r = bank
             flags_same = (post_cpsr >> 28) == nzcv
-            gpr_same = all(post_r(n) == pre_r(n) for n in range(14))
+            gpr_same = all(post_r(n) == pre_r(n) for n in range(15)) and (t != 'b' or passed or postR['PC'] == pc + size_of(slot['w'], True))
             mem_now = M.digest_of(M.peek(arm, P.DBASE, 0x100) + M.peek(arm, DENY, 0x20))
             mem_same = mem_now == self.last_mem
             self.last_mem = mem_now
@@ -378,8 +385,11 @@ class ITObserver:
                 want = sub_flags(pre_r(rn), slot['w'] & 0xFF)
                 if (post_cpsr >> 28) != want:
                     b.violate('it.effect', 'cmp', 'cmp_flags', 'CMP in slot %d gave NZCV %x, expected %x' % (i, post_cpsr >> 28, want))
-            if t == 'b' and postR['PC'] != pc + 4:
-                b.violate('it.effect', 'b', 'passed_condition_no_effect', 'branch in the last slot not taken')
+            if t == 'b':
+                if postR['PC'] != slot['target']:
+                    b.violate('it.effect', slot.get('name', 'b'), 'passed_condition_no_effect', 'branch (%s) in the last slot not taken: PC %#x, target %#x' % (slot.get('form'), postR['PC'], slot['target']))
+                elif slot.get('form') in ('bl', 'blx') and post_r(14) != ((pc + size_of(slot['w'], True)) | 1):
+                    b.violate('it.effect', slot.get('name', 'b'), 'link_register', '%s: LR %#x, expected %#x' % (slot.get('form'), post_r(14), (pc + size_of(slot['w'], True)) | 1))
         elif pc == meta.get('epi_addr') and not entered and (post_cpsr >> 30) & 1:
             b.violate('it.flags', 'mov_imm8', 'flags_not_set_outside_it_block', 'MOVS #imm (word %#x) executed after the block left Z set: the same halfword was executed inside the block before' % arm.opcode)
         elif pre_it != 0 and not entered:
